@@ -6,6 +6,7 @@ import (
 	"fmt"
 	"go/token"
 	"go/types"
+	"os"
 	"regexp"
 	"strings"
 
@@ -862,6 +863,9 @@ func (x *Exec) elemAssume(st *State, obj, cell int) {
 		return
 	}
 	arr := st.heap[obj].(*VAbsArr)
+	if os.Getenv("GOVC_DEBUG_ELEM") != "" {
+		fmt.Fprintf(os.Stderr, "elem of array %q (havocked=%v)\n", arr.Name, arr.Havocked)
+	}
 	if arr.Havocked || arr.ElemGen != nil {
 		return
 	}
